@@ -1,4 +1,219 @@
-import Parsley.Model.Loader
-import Parsley.Spec.Doc
+/-
+  C04 - The newest revision wins across incremental updates.
+
+  All theorems are about the faithful model `Parsley.Loader` (Model/Loader.lean) of
+  src/pdf_lib/pdf_traverse_xref.rs.  The loop lemmas live in Lemmas/LoaderChain.lean.
+
+  What is proved, for ALL inputs:
+    prev_cycle_or_oob_rejected   a /Prev chain that revisits an offset or leaves the file is rejected -
+                                 at the loop head, and one step ahead for every value a section's /Prev
+                                 can take (itself, any section already visited, any offset >= |file|);
+                                 every accepted chain has at most |file| sections (no fuel needed).
+    root_from_newest             the root reported is the /Root of the newest section.
+    merge_is_newest_wins_partial the entries kept are exactly the first occurrence of every
+                                 (number, generation) along the chain, newest section first; when
+                                 generations are stable per number, exactly the NEWEST entry of every
+                                 object number survives, so a number whose newest entry is free is
+                                 not collected for loading, and an in-use number is loaded from its
+                                 newest offset.
+  `_partial`: the statement of C04 is about the final context.  The step from "entries collected"
+  to "objects defined" is the object-loading stage (C03's staged theorems); it is NOT closed here
+  for object-stream members, and the theorem needs stable generations - both exclusions are real
+  defects of the code (known findings, witness theorems below), not proof gaps.
+-/
+import Parsley.Lemmas.LoaderChain
 namespace Parsley.C04
+open Parsley Parsley.Obj Parsley.Loader Parsley.LoaderChain
+
+/-- `.inFile id g o` is collected iff some kept entry says "id, generation g, in use at o" -/
+theorem infoOf_inFile (X : List Xref.Ent) (id g o : Nat) :
+    ObjInfo.inFile id g o ∈ infoOf X ↔ ∃ e ∈ X, e.obj = id ∧ e.gen = g ∧ e.st = .inUse o := by
+  induction X with
+  | nil => simp [infoOf]
+  | cons e t ih =>
+    unfold infoOf
+    cases hst : e.st with
+    | free n => simp only [ih, List.mem_cons, exists_eq_or_imp, hst]; simp
+    | inUse ofs =>
+      simp only [List.mem_cons, ih, exists_eq_or_imp, hst, ObjInfo.inFile.injEq, Xref.Status.inUse.injEq]
+      constructor
+      · rintro (⟨h1, h2, h3⟩ | h)
+        · exact Or.inl ⟨h1.symm, h2.symm, h3.symm⟩
+        · exact Or.inr h
+      · rintro (⟨h1, h2, h3⟩ | h)
+        · exact Or.inl ⟨h1.symm, h2.symm, h3.symm⟩
+        · exact Or.inr h
+    | inStream so idx => simp only [ih, List.mem_cons, exists_eq_or_imp, hst]; simp
+
+/-- **prev_cycle_or_oob_rejected** -/
+theorem prev_cycle_or_oob_rejected :
+    -- (1) at the head of the loop: an offset already visited, or not inside the file, is rejected
+    (∀ (f : Nat) (st : St) (s : Bytes) (next : Nat) (cs : List Nat) (ids : List (Nat × Nat)) (xs : List Xref.Ent)
+        (root : Option Obj), (cs.contains next = true ∨ ¬ next < s.length) →
+        ∃ st', xrefLoop (f + 1) st s next cs ids xs root = (.reject, st')) ∧
+    -- (2) for every /Prev value of a section that was read: itself, a visited offset, or >= |file|
+    (∀ (f : Nat) (st : St) (s : Bytes) (next : Nat) (cs : List Nat) (ids : List (Nat × Nat)) (xs : List Xref.Ent)
+        (root : Option Obj) (ents : List Xref.Ent) (rt : Option Obj) (p c1 : Nat) (st1 : St),
+        ¬ cs.contains next = true → next < s.length →
+        parseXrefSection st s next = (.ok (some (ents, rt, some p)), c1, st1) →
+        (root ≠ none ∨ rt ≠ none) → (p = next ∨ cs.contains p = true ∨ ¬ p < s.length) →
+        ∃ st', xrefLoop (f + 2) st s next cs ids xs root = (.reject, st')) ∧
+    -- (3) an accepted chain visits at most |file| sections, and more fuel changes nothing
+    (∀ (st : St) (s : Bytes) (start : Nat) (X : List Xref.Ent) (r : Obj) (st' : St),
+        getXrefInfo st s start = (.ok (X, r), st') →
+        ∃ infos, Chain s st start [] infos ∧ infos.length ≤ s.length) ∧
+    (∀ (st : St) (s : Bytes) (start g : Nat),
+        xrefLoop (s.length + 1 + g) st s start [] [] [] none = getXrefInfo st s start) :=
+  ⟨prev_revisit_or_oob_rejected, prev_chain_step_rejected,
+   fun st s start X r st' h => by
+     obtain ⟨infos, hc, hl, _⟩ := getXrefInfo_merges_chain st s start X r st' h
+     exact ⟨infos, hc, hl⟩,
+   getXrefInfo_fuel_stable⟩
+
+/-- **root_from_newest** -/
+theorem root_from_newest (st : St) (s : Bytes) (start : Nat) (X : List Xref.Ent) (r : Obj) (st' : St)
+    (h : getXrefInfo st s start = (.ok (X, r), st')) :
+    ∃ ents prev c st1, firstInfo st s start = (.ok (some (ents, some r, prev)), c, st1) :=
+  LoaderChain.root_from_newest st s start X r st' h
+
+/-- all entries of one object number carry the same generation -/
+def StableGen (L : List Xref.Ent) : Prop := ∀ a ∈ L, ∀ b ∈ L, a.obj = b.obj → a.gen = b.gen
+
+/-- **merge_is_newest_wins_partial** (stable generations; the step to the context is C03's). -/
+theorem merge_is_newest_wins_partial (st : St) (s : Bytes) (start : Nat) (X : List Xref.Ent) (r : Obj) (st' : St)
+    (h : getXrefInfo st s start = (.ok (X, r), st')) :
+    ∃ infos : List SectInfo, Chain s st start [] infos ∧
+      -- the entries kept: first occurrence of every (number, generation), newest section first
+      X = dedupKey (infos.map (·.1)).flatten [] ∧
+      (StableGen (infos.map (·.1)).flatten →
+        -- per object number exactly the newest entry survives
+        (∀ n, X.filter (·.obj == n) = ((infos.map (·.1)).flatten.find? (·.obj == n)).toList) ∧
+        -- a number whose newest entry is free is not loaded from any offset
+        (∀ n e nx, (infos.map (·.1)).flatten.find? (·.obj == n) = some e → e.st = .free nx →
+            ∀ g o, ObjInfo.inFile n g o ∉ infoOf X) ∧
+        -- a number whose newest entry is in use is loaded from that entry's offset, and from no other
+        (∀ n e o, (infos.map (·.1)).flatten.find? (·.obj == n) = some e → e.st = .inUse o →
+            (ObjInfo.inFile n e.gen o ∈ infoOf X ∧ ∀ g o', ObjInfo.inFile n g o' ∈ infoOf X → g = e.gen ∧ o' = o))) := by
+  obtain ⟨infos, hc, _, hX⟩ := getXrefInfo_merges_chain st s start X r st' h
+  refine ⟨infos, hc, hX, fun hst => ?_⟩
+  have hfil : ∀ n, X.filter (·.obj == n) = ((infos.map (·.1)).flatten.find? (·.obj == n)).toList := by
+    intro n; rw [hX]; exact stable_gen_first_per_number _ hst n
+  have honly : ∀ n e, (infos.map (·.1)).flatten.find? (·.obj == n) = some e → ∀ e' ∈ X, e'.obj = n → e' = e := by
+    intro n e hf e' he' hn
+    have hm : e' ∈ X.filter (·.obj == n) := by simp [List.mem_filter, he', hn]
+    rw [hfil n, hf] at hm
+    simpa using hm
+  have hin : ∀ n e, (infos.map (·.1)).flatten.find? (·.obj == n) = some e → e ∈ X ∧ e.obj = n := by
+    intro n e hf
+    have hm : e ∈ X.filter (·.obj == n) := by rw [hfil n, hf]; simp
+    have := List.mem_filter.mp hm
+    exact ⟨this.1, by simpa using this.2⟩
+  refine ⟨hfil, ?_, ?_⟩
+  · intro n e nx hf hfree g o hmem
+    obtain ⟨e', he', hn, _, hs⟩ := (infoOf_inFile X n g o).mp hmem
+    have := honly n e hf e' he' hn
+    subst this
+    rw [hfree] at hs
+    cases hs
+  · intro n e o hf huse
+    obtain ⟨heX, hen⟩ := hin n e hf
+    refine ⟨(infoOf_inFile X n e.gen o).mpr ⟨e, heX, hen, rfl, huse⟩, ?_⟩
+    intro g o' hmem
+    obtain ⟨e', he', hn, hg, hs⟩ := (infoOf_inFile X n g o').mp hmem
+    have := honly n e hf e' he' hn
+    subst this
+    rw [huse] at hs
+    exact ⟨hg.symm, by cases hs; rfl⟩
+
+/-! ## non-vacuity and witnesses on concrete files (evaluated by the kernel on the model) -/
+
+def lookupDef (o : Out Loaded) (id : Nat × Nat) : Option Obj :=
+  match o with
+  | .ok l => ObjStm.defsGet id l.defs
+  | _ => none
+
+def isIntVal (o : Option Obj) (n : Int) : Bool :=
+  match o with
+  | some (.int m) => m == n
+  | _ => false
+
+def isStr (o : Option Obj) (b : Bytes) : Bool :=
+  match o with
+  | some (.str x) => x == b
+  | _ => false
+
+def isRejected : Out Loaded → Bool
+  | .reject => true
+  | _ => false
+
+def rootIs (o : Out Loaded) (id : Nat × Nat) : Bool :=
+  match o with
+  | .ok l => l.root == id
+  | _ => false
+
+/-- base revision (objects 1 = 7, 2 = 8), then an update with the single entry `0000000000 00000 f` for 2 -/
+def freeStable : Bytes := [
+  37, 80, 68, 70, 45, 49, 46, 53, 10, 49, 32, 48, 32, 111, 98, 106, 32, 55, 32, 101, 110, 100, 111, 98, 106, 10, 50, 32, 48, 32, 111, 98, 106, 32, 56, 32, 101, 110, 100, 111,
+  98, 106, 10, 120, 114, 101, 102, 10, 48, 32, 49, 10, 48, 48, 48, 48, 48, 48, 48, 48, 48, 48, 32, 54, 53, 53, 51, 53, 32, 102, 32, 10, 49, 32, 49, 10, 48, 48, 48, 48,
+  48, 48, 48, 48, 48, 57, 32, 48, 48, 48, 48, 48, 32, 110, 32, 10, 50, 32, 49, 10, 48, 48, 48, 48, 48, 48, 48, 48, 50, 54, 32, 48, 48, 48, 48, 48, 32, 110, 32, 10,
+  116, 114, 97, 105, 108, 101, 114, 60, 60, 47, 83, 105, 122, 101, 32, 51, 47, 82, 111, 111, 116, 32, 49, 32, 48, 32, 82, 62, 62, 10, 115, 116, 97, 114, 116, 120, 114, 101, 102, 10,
+  52, 51, 10, 37, 37, 69, 79, 70, 10, 120, 114, 101, 102, 10, 50, 32, 49, 10, 48, 48, 48, 48, 48, 48, 48, 48, 48, 48, 32, 48, 48, 48, 48, 48, 32, 102, 32, 10, 116, 114,
+  97, 105, 108, 101, 114, 60, 60, 47, 83, 105, 122, 101, 32, 51, 47, 82, 111, 111, 116, 32, 49, 32, 48, 32, 82, 47, 80, 114, 101, 118, 32, 52, 51, 62, 62, 10, 115, 116, 97, 114,
+  116, 120, 114, 101, 102, 10, 49, 54, 57, 10, 37, 37, 69, 79, 70, 10]
+
+/-- the same history with the generation bump the standard asks for: `0000000000 00001 f` -/
+def freeBump : Bytes := [
+  37, 80, 68, 70, 45, 49, 46, 53, 10, 49, 32, 48, 32, 111, 98, 106, 32, 55, 32, 101, 110, 100, 111, 98, 106, 10, 50, 32, 48, 32, 111, 98, 106, 32, 56, 32, 101, 110, 100, 111,
+  98, 106, 10, 120, 114, 101, 102, 10, 48, 32, 49, 10, 48, 48, 48, 48, 48, 48, 48, 48, 48, 48, 32, 54, 53, 53, 51, 53, 32, 102, 32, 10, 49, 32, 49, 10, 48, 48, 48, 48,
+  48, 48, 48, 48, 48, 57, 32, 48, 48, 48, 48, 48, 32, 110, 32, 10, 50, 32, 49, 10, 48, 48, 48, 48, 48, 48, 48, 48, 50, 54, 32, 48, 48, 48, 48, 48, 32, 110, 32, 10,
+  116, 114, 97, 105, 108, 101, 114, 60, 60, 47, 83, 105, 122, 101, 32, 51, 47, 82, 111, 111, 116, 32, 49, 32, 48, 32, 82, 62, 62, 10, 115, 116, 97, 114, 116, 120, 114, 101, 102, 10,
+  52, 51, 10, 37, 37, 69, 79, 70, 10, 120, 114, 101, 102, 10, 50, 32, 49, 10, 48, 48, 48, 48, 48, 48, 48, 48, 48, 48, 32, 48, 48, 48, 48, 49, 32, 102, 32, 10, 116, 114,
+  97, 105, 108, 101, 114, 60, 60, 47, 83, 105, 122, 101, 32, 51, 47, 82, 111, 111, 116, 32, 49, 32, 48, 32, 82, 47, 80, 114, 101, 118, 32, 52, 51, 62, 62, 10, 115, 116, 97, 114,
+  116, 120, 114, 101, 102, 10, 49, 54, 57, 10, 37, 37, 69, 79, 70, 10]
+
+/-- object stream 3 holds members 1 (= 11) and 2 (= 22); cross-reference stream 4 -/
+def objstmBase : Bytes := [
+  37, 80, 68, 70, 45, 49, 46, 53, 10, 51, 32, 48, 32, 111, 98, 106, 60, 60, 47, 84, 121, 112, 101, 47, 79, 98, 106, 83, 116, 109, 47, 78, 32, 50, 47, 70, 105, 114, 115, 116,
+  32, 56, 47, 76, 101, 110, 103, 116, 104, 32, 49, 51, 62, 62, 115, 116, 114, 101, 97, 109, 10, 49, 32, 48, 32, 50, 32, 51, 32, 49, 49, 32, 50, 50, 10, 101, 110, 100, 115, 116,
+  114, 101, 97, 109, 32, 101, 110, 100, 111, 98, 106, 10, 52, 32, 48, 32, 111, 98, 106, 60, 60, 47, 84, 121, 112, 101, 47, 88, 82, 101, 102, 47, 83, 105, 122, 101, 32, 53, 47, 87,
+  91, 49, 32, 49, 32, 49, 93, 47, 82, 111, 111, 116, 32, 49, 32, 48, 32, 82, 47, 76, 101, 110, 103, 116, 104, 32, 49, 53, 62, 62, 115, 116, 114, 101, 97, 109, 10, 0, 0, 255,
+  2, 3, 0, 2, 3, 1, 1, 9, 0, 1, 92, 0, 10, 101, 110, 100, 115, 116, 114, 101, 97, 109, 32, 101, 110, 100, 111, 98, 106, 10, 115, 116, 97, 114, 116, 120, 114, 101, 102, 10,
+  57, 50, 10, 37, 37, 69, 79, 70, 10]
+
+/-- the same, followed by an update that redefines object 1 as the string `(new)` -/
+def objstmRedef : Bytes := [
+  37, 80, 68, 70, 45, 49, 46, 53, 10, 51, 32, 48, 32, 111, 98, 106, 60, 60, 47, 84, 121, 112, 101, 47, 79, 98, 106, 83, 116, 109, 47, 78, 32, 50, 47, 70, 105, 114, 115, 116,
+  32, 56, 47, 76, 101, 110, 103, 116, 104, 32, 49, 51, 62, 62, 115, 116, 114, 101, 97, 109, 10, 49, 32, 48, 32, 50, 32, 51, 32, 49, 49, 32, 50, 50, 10, 101, 110, 100, 115, 116,
+  114, 101, 97, 109, 32, 101, 110, 100, 111, 98, 106, 10, 52, 32, 48, 32, 111, 98, 106, 60, 60, 47, 84, 121, 112, 101, 47, 88, 82, 101, 102, 47, 83, 105, 122, 101, 32, 53, 47, 87,
+  91, 49, 32, 49, 32, 49, 93, 47, 82, 111, 111, 116, 32, 49, 32, 48, 32, 82, 47, 76, 101, 110, 103, 116, 104, 32, 49, 53, 62, 62, 115, 116, 114, 101, 97, 109, 10, 0, 0, 255,
+  2, 3, 0, 2, 3, 1, 1, 9, 0, 1, 92, 0, 10, 101, 110, 100, 115, 116, 114, 101, 97, 109, 32, 101, 110, 100, 111, 98, 106, 10, 115, 116, 97, 114, 116, 120, 114, 101, 102, 10,
+  57, 50, 10, 37, 37, 69, 79, 70, 10, 49, 32, 48, 32, 111, 98, 106, 32, 40, 110, 101, 119, 41, 32, 101, 110, 100, 111, 98, 106, 10, 120, 114, 101, 102, 10, 49, 32, 49, 10, 48,
+  48, 48, 48, 48, 48, 48, 50, 48, 57, 32, 48, 48, 48, 48, 48, 32, 110, 32, 10, 116, 114, 97, 105, 108, 101, 114, 60, 60, 47, 83, 105, 122, 101, 32, 53, 47, 82, 111, 111, 116,
+  32, 49, 32, 48, 32, 82, 47, 80, 114, 101, 118, 32, 57, 50, 62, 62, 10, 115, 116, 97, 114, 116, 120, 114, 101, 102, 10, 50, 51, 48, 10, 37, 37, 69, 79, 70, 10]
+
+/-- non-vacuity of the newest-wins statement: a free entry with the SAME generation removes the object -/
+example : isIntVal (lookupDef (parseData freeStable) (1, 0)) 7 = true ∧
+    (lookupDef (parseData freeStable) (2, 0)).isNone = true ∧ rootIs (parseData freeStable) (1, 0) = true := by
+  decide +kernel
+
+/-- **Known finding C04-generation-changed (#29).**  The update frees object 2 with the generation
+    bump `00001 f`; the loader keeps one entry per (number, generation), so (2,0) stays defined. -/
+theorem free_with_bumped_generation_witness :
+    isIntVal (lookupDef (parseData freeBump) (2, 0)) 8 = true := by
+  decide +kernel
+
+/-- the base revision of the next witness loads both members -/
+example : isIntVal (lookupDef (parseData objstmBase) (1, 0)) 11 = true ∧
+    isIntVal (lookupDef (parseData objstmBase) (2, 0)) 22 = true := by
+  decide +kernel
+
+/-- **Known finding C04-objstm-member-touched-later (#30).**  After the update that redefines
+    member 1 as `(new)`, object 1 is bound to its OLD value 11 (the replayed stream overwrites the
+    newer definition before the duplicate is reported) and its stream neighbour 2 is undefined. -/
+theorem objstm_member_redefined_witness :
+    isIntVal (lookupDef (parseData objstmRedef) (1, 0)) 11 = true ∧
+    isStr (lookupDef (parseData objstmRedef) (1, 0)) [110, 101, 119] = false ∧
+    (lookupDef (parseData objstmRedef) (2, 0)).isNone = true := by
+  decide +kernel
+
 end Parsley.C04
